@@ -9,7 +9,7 @@ import pygen
 
 HERE = os.path.dirname(os.path.abspath(__file__))
 REQ = ("From Coq Require Import NArith List Bool.\nImport ListNotations.\n"
-       "From PV Require Import Py.PyAST Py.PySem Cfg.Flow Cfg.FlowSpec Cfg.FlowRun.\nOpen Scope N_scope.")
+       "From PV Require Import Py.PyAST Py.PySem Cfg.Flow Cfg.FlowSpec Cfg.Builder Cfg.FlowRun.\nOpen Scope N_scope.")
 
 
 def gen_modules(rng, n, profile):
@@ -80,6 +80,22 @@ def coq_analyse(mods, tag):
     for m, r in zip(mods, res):
         m["model"] = [{"qn": list(x[0]), "k": x[1], "dead": set(x[2]), "cx": x[3], "must_dead": set(x[4]),
                        "mccabe": x[5], "c03": x[6]} for x in r]
+    return len(res) == len(mods)
+
+
+def coq_build(mods, tag):
+    """Graph-level model (Cfg/Builder.v) for every def of every module."""
+    jobs = []
+    shard = 8
+    for off in range(0, len(mods), shard):
+        items = [pygen.coq_block(m["ast"]) for m in mods[off:off + shard]]
+        jobs.append(("%s_bd_%d" % (tag, off), REQ,
+                     "Definition mods : list block := %s.\nEval vm_compute in (map build_module mods).\n" % lib.clist(items)))
+    res = []
+    for out in lib.coq_eval_many(jobs, workers=12):
+        res += lib.parse_coq_values(out)[0]
+    for m, r in zip(mods, res):
+        m["builder"] = {x[0]: {"ranges": sorted((a, b) for (a, b) in x[1]), "cx": x[2], "dead_lines": set(x[3])} for x in r}
     return len(res) == len(mods)
 
 
